@@ -62,6 +62,7 @@ class Net:
         spi, csn, ce = self.w.bus(radio, mcu=mcu, backend=backend)
         node = CLASSES[cls](spi, csn, ce, arg)
         nc = NodeCtl(self, key, radio, mcu, node, cls)
+        nc.bus, nc.arg, nc.setup = (spi, csn, ce), arg, setup
         if setup is not None:
             setup(node)
         self.nodes[key] = nc
@@ -81,10 +82,18 @@ class Net:
             self.sim.wake(nc.task, at=self.sim.now + nc.mcu.rng.randint(0, nc.mcu.poll_ns))
 
     # ------------------------------------------------------------------ node task
+    def restart(self, nc, arg=None):
+        """MCU reset: a fresh driver object on the same (dirty, still running) radio; only the chip's state survives"""
+        nc.node = CLASSES[nc.cls](nc.bus[0], nc.bus[1], nc.bus[2], nc.arg if arg is None else arg)
+        if nc.setup is not None:
+            nc.setup(nc.node)
+        self.sim.count("mcu_restart")
+        return nc.node.node_address
+
     def _loop(self, nc):
         sim = self.sim
-        node = nc.node
         while not self.stop and nc.running:
+            node = nc.node
             while nc.cmds and sim.now >= nc.hold_until:
                 c = nc.cmds.pop(0)
                 if c.name == "hold":
@@ -110,6 +119,7 @@ class Net:
                 if self.post_call is not None:
                     self.post_call(nc, c.name)
                 self._drain(nc)
+            node = nc.node
             try:
                 nc.updates += 1
                 node.update()
